@@ -24,6 +24,8 @@ pub enum Corrupt {
     RandomFill { start: usize, end: usize, seed: u64 },
     /// bytes appended after the string section (a file that grew)
     Append { n: usize, seed: u64 },
+    /// the file lost its tail (torn write): only `len` bytes remain
+    Truncate { len: usize },
 }
 
 impl Corrupt {
@@ -37,6 +39,7 @@ impl Corrupt {
             Corrupt::Zero { .. } => "zero_range",
             Corrupt::RandomFill { .. } => "garbage_fill",
             Corrupt::Append { .. } => "append_garbage",
+            Corrupt::Truncate { .. } => "truncate",
         }
     }
     pub fn to_json(&self) -> Value {
@@ -49,6 +52,7 @@ impl Corrupt {
             Corrupt::Zero { start, end } => json!({"op":"zero","start":start,"end":end}),
             Corrupt::RandomFill { start, end, seed } => json!({"op":"random_fill","start":start,"end":end,"seed":seed.to_string()}),
             Corrupt::Append { n, seed } => json!({"op":"append","n":n,"seed":seed.to_string()}),
+            Corrupt::Truncate { len } => json!({"op":"truncate","len":len}),
         }
     }
     pub fn from_json(v: &Value) -> Option<Corrupt> {
@@ -64,6 +68,7 @@ impl Corrupt {
             "zero" => Corrupt::Zero { start: u("start")?, end: u("end")? },
             "random_fill" => Corrupt::RandomFill { start: u("start")?, end: u("end")?, seed: seed("seed")? },
             "append" => Corrupt::Append { n: u("n")?, seed: seed("seed")? },
+            "truncate" => Corrupt::Truncate { len: u("len")? },
             _ => return None,
         })
     }
@@ -124,6 +129,7 @@ pub fn apply(file: &[u8], ops: &[Corrupt]) -> Vec<u8> {
                     b.push(r.next_u64() as u8);
                 }
             }
+            Corrupt::Truncate { len } => b.truncate(*len),
         }
     }
     b
@@ -312,7 +318,8 @@ pub fn random_corruption(rng: &mut Rng, file: &[u8], enabled: &[u8]) -> Option<C
             end: file.len(),
             seed: rng.next_u64(),
         },
-        _ => Corrupt::Append { n: rng.range(1, 64) as usize, seed: rng.next_u64() },
+        8 => Corrupt::Append { n: rng.range(1, 64) as usize, seed: rng.next_u64() },
+        _ => Corrupt::Truncate { len: rng.usize_below(file.len()) },
     })
 }
 
@@ -502,7 +509,7 @@ pub fn plan_run(seed: u64, thorough: bool, run: u64, corpus: &[(String, Vec<u8>)
     if !thorough {
         images = enumerate_field_sets(&file);
         // a few seeded multi-kind images as well
-        let all: Vec<u8> = (0..9).collect();
+        let all: Vec<u8> = (0..10).collect();
         for _ in 0..40 {
             if let Some(c) = random_corruption(&mut rng, &file, &all) {
                 images.push(vec![c]);
@@ -513,7 +520,7 @@ pub fn plan_run(seed: u64, thorough: bool, run: u64, corpus: &[(String, Vec<u8>)
         for _ in 0..n_images {
             // swarm: random subset of kinds per image, 1..6 faults
             let enabled: Vec<u8> = {
-                let v: Vec<u8> = (0..9u8).filter(|_| rng.chance(1, 2)).collect();
+                let v: Vec<u8> = (0..10u8).filter(|_| rng.chance(1, 2)).collect();
                 if v.is_empty() {
                     vec![0]
                 } else {
@@ -558,6 +565,7 @@ fn run_plan(run: u64, plan: &FilePlan, watch: &Watch, st: &mut Stats, vs: &mut V
         watch.slots[slot][1].store(run, Ordering::Relaxed);
         watch.slots[slot][2].store(idx as u64, Ordering::Relaxed);
         watch.slots[slot][0].store(watch.now_ms(), Ordering::SeqCst);
+        crash_mark(run, idx as u64);
         let r = run_image(&img, &plan.queries, true);
         watch.slots[slot][0].store(0, Ordering::SeqCst);
         st.inc("images");
@@ -676,6 +684,27 @@ pub fn replay(doc: &Value) -> i32 {
     }
 }
 
+/// `pgsim c12 --dump-case RUN CASE --signal N`: rebuild the case a crashed run was executing and
+/// write it as a replay file (no library code is executed for the damaged image here).
+pub fn dump_case(env: &Env, run: u64, case: usize, signal: u64) -> i32 {
+    let thorough = env.thorough;
+    let corpus: Vec<(String, Vec<u8>)> = gen::corpus(false).into_iter().filter(|(_, b)| b.len() < if thorough { 60_000 } else { 3_000 }).collect();
+    let n_gen = if thorough { env.scaled(400_000) } else { env.scaled(700) };
+    let Some(plan) = plan_run(env.seed, thorough, run, &corpus, n_gen) else {
+        eprintln!("cannot rebuild run {}", run);
+        return 2;
+    };
+    let ops = plan.images.get(case).cloned().unwrap_or_default();
+    let v = Violation {
+        property: "C12".into(),
+        run,
+        class: format!("process-killed-by-signal-{}", signal),
+        message: format!("the process died with signal {} while parsing / querying damaged image #{} of run {}", signal, case, run),
+        case: case_json(&plan, &ops, None),
+    };
+    conclude("C12", "disk", env.seed, &[v])
+}
+
 pub fn main(env: &Env) -> i32 {
     let mut rep = Report::new("C12", if env.thorough { "exploration" } else { "fault_enumeration" }, env);
     rep.stubs = vec!["SimDisk corruption operators on the stored cache image: field set, bit flip, record swap/copy (misdirected write), string length prefix, UTF-8 byte, zeroed sector / tail (lost write), garbage fill, appended garbage".into()];
@@ -689,12 +718,12 @@ pub fn main(env: &Env) -> i32 {
     let thorough = env.thorough;
     let corpus: Vec<(String, Vec<u8>)> =
         gen::corpus(false).into_iter().filter(|(_, b)| b.len() < if thorough { 60_000 } else { 3_000 }).collect();
-    let n_gen = if thorough { env.scaled(60_000) } else { env.scaled(700) };
+    let n_gen = if thorough { env.scaled(400_000) } else { env.scaled(700) };
     let n_total = n_gen + corpus.len() as u64;
     rep.exhaustive = !thorough;
     rep.rule = if thorough {
         format!(
-            "{} seeded runs + {} corpus files; per run a generated mapping (0..10 classes x 0..12 members) is written by the real writer, then 48 damaged images (400 for corpus files) are derived, each by 1..6 corruption operators drawn from a per-image random subset of 9 kinds (applied sequentially so later faults see earlier damage); every image accepted by parse is driven with ~220-300 queries (full universe sample + extreme lines + names read back from the damaged image). distinct_nontrivial = distinct damaged images (by digest) accepted by parse.",
+            "{} seeded runs + {} corpus files; per run a generated mapping (0..10 classes x 0..12 members) is written by the real writer, then 48 damaged images (400 for corpus files) are derived, each by 1..6 corruption operators drawn from a per-image random subset of 9 kinds (applied sequentially so later faults see earlier damage); every image accepted by parse is driven with ~220-300 queries (full universe sample + extreme lines + names read back from the damaged image). distinct_nontrivial = distinct damaged images (by digest) accepted by parse (the digest set is capped at 4 million entries, so this is a lower bound).",
             n_gen,
             corpus.len()
         )
@@ -784,7 +813,7 @@ pub fn miri_main(args: &[String]) -> i32 {
         }
     }
     let all = enumerate_field_sets(&file);
-    let kinds: Vec<u8> = (0..9).collect();
+    let kinds: Vec<u8> = (0..10).collect();
     let mut accepted = 0;
     let mut d = Digest::default();
     for k in 0..n_images {
